@@ -24,18 +24,19 @@ type File struct {
 
 // Spec is the run spec of SIM-LOADER.
 type Spec struct {
-	Marker       string             `json:"marker"`
-	RootForm     string             `json:"root_form"` // data | reader | data_path_abs | data_path_http | file_rel | file_abs | file_url | http | https
-	Reader       string             `json:"reader"`    // func | default
-	External     bool               `json:"external"`  // IsExternalRefsAllowed
-	Reuse        bool               `json:"reuse,omitempty"`
-	RootFragRefs []string           `json:"root_frag_refs,omitempty"` // fragment references planted in the root at positions the loader visits whose fragment may not exist in the target
-	ThenMemory   any                `json:"then_memory,omitempty"`    // a document without external references loaded from memory afterwards on the same Loader
-	MapSeed      uint64             `json:"map_seed,omitempty"`       // 0 = sorted map iteration inside the loader; else seeded permutation
-	Files        []File             `json:"files"`
-	Decoys       []string           `json:"decoys,omitempty"`  // paths of files nothing refers to
-	Faults       []simenv.ReadFault `json:"faults,omitempty"`  // Loc = "file:<index>"
-	Changed      []int              `json:"changed,omitempty"` // file indices whose second read returns different content
+	Marker         string             `json:"marker"`
+	RootForm       string             `json:"root_form"` // data | reader | data_path_abs | data_path_http | file_rel | file_abs | file_url | http | https
+	Reader         string             `json:"reader"`    // func | default
+	External       bool               `json:"external"`  // IsExternalRefsAllowed
+	Reuse          bool               `json:"reuse,omitempty"`
+	RootFragRefs   []string           `json:"root_frag_refs,omitempty"`   // fragment references planted in the root at positions the loader visits whose fragment may not exist in the target
+	ThenResolveOff bool               `json:"then_resolve_off,omitempty"` // afterwards, on the same Loader: switch turned off, root unmarshalled by the caller, ResolveRefsIn(doc, location)
+	ThenMemory     any                `json:"then_memory,omitempty"`      // a document without external references loaded from memory afterwards on the same Loader
+	MapSeed        uint64             `json:"map_seed,omitempty"`         // 0 = sorted map iteration inside the loader; else seeded permutation
+	Files          []File             `json:"files"`
+	Decoys         []string           `json:"decoys,omitempty"`  // paths of files nothing refers to
+	Faults         []simenv.ReadFault `json:"faults,omitempty"`  // Loc = "file:<index>"
+	Changed        []int              `json:"changed,omitempty"` // file indices whose second read returns different content
 }
 
 var plural = map[string]string{
@@ -148,6 +149,7 @@ func (g *gen) canary() string {
 		"decoy-" + m + ".json", "../decoy-" + m + ".json", "../../../../etc/passwd-" + m, "/etc/passwd-" + m, "/sim/" + m + "/decoy.json#/x",
 		"http://canary-" + m + ".test/steal.json", "https://canary-" + m + ".test/steal.json#/components/schemas/S", "//canary-" + m + ".test/x.json",
 		"file:///etc/shadow-" + m, "sub/../../decoy-" + m + ".json#/a",
+		"sub\\..\\..\\decoy-" + m + ".json", "models\\..\\..\\..\\etc\\passwd-" + m + "#/x", // backslashes are ordinary characters in a reference
 	})
 }
 
@@ -356,7 +358,16 @@ func Gen(seed uint64, prop, tier string) *Spec {
 	g := &gen{r: r, s: s}
 	// layout
 	dirs := []string{"", "specs/", "specs/v1/", "common/", "common/deep/er/"}
-	s.Files = append(s.Files, File{Path: simfw.Pick(r, dirs) + "api.json", Kind: "whole"})
+	rootName := "api.json"
+	if (s.RootForm == "file_rel" || s.RootForm == "file_abs") && r.Chance(1, 5) {
+		// legal file names that a URL parser would cut or decode
+		rootName = simfw.Pick(r, []string{"api#v2.json", "api?draft.json", "api%2Fv2.json"})
+	}
+	s.Files = append(s.Files, File{Path: simfw.Pick(r, dirs) + rootName, Kind: "whole"})
+	if rootName != "api.json" {
+		// the neighbours such a parser would end up at
+		s.Decoys = append(s.Decoys, "api", "api/v2.json")
+	}
 	n := r.Range(0, 5)
 	for i := 0; i < n; i++ {
 		f := File{Path: simfw.Pick(r, dirs) + fmt.Sprintf("f%d.json", i+1)}
@@ -425,7 +436,7 @@ func Gen(seed uint64, prop, tier string) *Spec {
 			f.Doc = g.element(strings.TrimPrefix(f.Kind, "single:"), 3)
 		}
 	}
-	s.Decoys = []string{"decoy-" + s.Marker + ".json", "specs/decoy-" + s.Marker + ".json"}
+	s.Decoys = append(s.Decoys, "decoy-"+s.Marker+".json", "specs/decoy-"+s.Marker+".json")
 	// faults on non-root reads (and sometimes the root)
 	if r.Chance(1, 3) && len(s.Files) > 1 {
 		k := r.Range(1, 2)
@@ -440,6 +451,7 @@ func Gen(seed uint64, prop, tier string) *Spec {
 	if r.Chance(1, 8) && len(s.Files) > 1 {
 		s.Changed = append(s.Changed, r.Range(0, len(s.Files)-1))
 	}
+	s.ThenResolveOff = s.External && r.Chance(1, 6)
 	if r.Chance(1, 5) {
 		// internal references only; sometimes one that dangles here but names a component the earlier root has
 		sch := map[string]any{"A": map[string]any{"type": "object", "properties": map[string]any{"b": map[string]any{"$ref": "#/components/schemas/B"}}}, "B": map[string]any{"type": "string"}}
